@@ -165,7 +165,9 @@ def s1(chk: Check, proj: Project, w) -> None:
     fl = forwarding_loops(f)
     fresh = [x.targets[0].id for x in body_walk(f) if isinstance(x, ast.Assign) and isinstance(x.value, ast.Call) and isinstance(x.value.func, ast.Attribute) and x.value.func.attr == "new" and isinstance(x.targets[0], ast.Name)]
     n += 1
-    if not fl:
+    if not fl and any(isinstance(x, ast.Name) and x.id == "_INJECT_CONTEXT_KEY_PREFIX" for x in ast.walk(f)):
+        chk.undecided("S1", "context:make_isolated_context_copy:forwarding-loop", m.loc(f), "the inject prefix is used but not in the `for k in ctx.flatten(): if k.startswith(PREFIX): new[k] = ...` shape this rule understands: cannot decide whether every provided key (nearest provider winning) reaches the isolated copy")
+    elif not fl:
         chk.violated("S1", "context:make_isolated_context_copy:forwarding-loop", m.loc(f), "the isolated context copy does not forward the inject keys: inject() fails across `only` / isolated components")
     else:
         loop, ifst, store, src, tgt = fl[0]
@@ -173,6 +175,12 @@ def s1(chk: Check, proj: Project, w) -> None:
         chk.ob("S1", "context:make_isolated_context_copy:forwarding-loop", m.loc(loop), ok, f"inject keys of `{src}` are forwarded into the fresh context `{tgt}`" if ok else f"forwarding loop copies from `{src}` into `{tgt}`, not from the source context into the fresh one")
         check_forwarding_condition(chk, "S1", m, "make_isolated_context_copy", ifst)
         n += 1
+        outer = next((a for a in ancestors(loop) if isinstance(a, ast.For)), None)
+        if outer is not None and ".dicts" in norm(outer.iter):
+            rev = "reversed(" in norm(outer.iter)
+            chk.ob("S1", "context:make_isolated_context_copy:nearest-provider-wins", m.loc(outer), not rev,
+                   "the layers are walked outermost first with unconditional assignment: the nearest provider's id is the one kept" if not rev else
+                   f"`for .. in {norm(outer.iter)}` walks the layers innermost first and assigns unconditionally: the OUTERMOST provider of a key overwrites the nearest one")
     # (b) slot fill context
     m2, f2 = proj.func("slots", "SlotNode.render")
     chk.analysed(fkey(m2, f2))
